@@ -81,6 +81,13 @@ def result_variant_on_path(body, p):
                 variant = 'Err'
             else:
                 variant = '?call:' + callee_id(t['callee'])
+    if variant == '?':
+        # `_0 = move tmp` where tmp holds the literal (the return slot of an inlined helper): resolve through the path environment
+        ret = PathFacts(body, p).ret
+        if ret and ret[0] == 'agg' and ret[1] == 'adt' and isinstance(ret[2], str) and '::' in ret[2]:
+            last = ret[2].rsplit('::', 1)[-1]
+            if last in ('Ok', 'Err', 'Some', 'None'):
+                variant = last
     return variant
 
 
